@@ -345,3 +345,16 @@ func (i *interpreter) goStmt(fr *frame, instr *ssa.Go, fn value, args []value) {
 	}
 	panic(unsupported{"go statement (" + name + ") at " + i.posString(instr.Pos(), fr)})
 }
+
+// codePointer returns a stable address standing for the code of fn.
+func (i *interpreter) codePointer(fn *ssa.Function) *value {
+	if i.codePtrs == nil {
+		i.codePtrs = map[*ssa.Function]*value{}
+	}
+	if p, ok := i.codePtrs[fn]; ok {
+		return p
+	}
+	c := value(fn)
+	i.codePtrs[fn] = &c
+	return &c
+}
